@@ -433,23 +433,24 @@ def step_replay(h, vals, label):
     tried = []
     c0, status, exc = sym.run_concrete(h, vals, 2e-5)
     tried.append({"tol": "model", "status": status, "failed": c0.failed[:6]})
-    if label in c0.failed:
-        return True, {"tries": tried}
+    hit = lambda cc: (label in cc.failed) or (label == "*" and bool(cc.failed))
+    if hit(c0):
+        return True, {"tries": tried, "failed": c0.failed[:6]}
     v1 = dict(vals)
     v1["tol_override"] = 1e300
     c1, status, exc = sym.run_concrete(h, v1, 2e-5)
     costs = [e[1] for e in c1.events if isinstance(e, tuple) and e[0] == "accepted_cost"]
     tried.append({"tol": "inf", "status": status, "failed": c1.failed[:6], "cost": costs})
-    if label in c1.failed:
-        return True, {"tries": tried}
+    if hit(c1):
+        return True, {"tries": tried, "failed": c1.failed[:6]}
     for cst in costs:
         for tolv in (cst, cst * (1 + 1e-9) + 1e-300, 2 * cst + 1.0):
             v2 = dict(vals)
             v2["tol_override"] = tolv
             c2, status, exc = sym.run_concrete(h, v2, 2e-5)
             tried.append({"tol": tolv, "status": status, "failed": c2.failed[:6]})
-            if label in c2.failed:
-                return True, {"tries": tried}
+            if hit(c2):
+                return True, {"tries": tried, "failed": c2.failed[:6]}
     return False, {"tries": tried}
 
 
